@@ -42,6 +42,9 @@ impl Pattern {
         unicode: bool,
         ignore_case: bool,
     ) -> Result<Pattern, String> {
+        #[cfg(feature = "verif_hooks")]
+        crate::verif::record_compile(regex, unicode, ignore_case);
+
         // UTF-8 mode is disabled here so we can give prettier error messages
         // later in the compilation process. See logos_codegen/src/lib.rs for
         // the UTF-8 checking.
